@@ -202,6 +202,9 @@ func (p *Path) Decide(c *Term) bool {
 	copy(pend, p.trace)
 	pend[i] = Decision{0, false}
 	p.ex.pending = append(p.ex.pending, pend)
+	if forkSites != nil {
+		forkSites[curForkSite]++
+	}
 	p.trace = append(p.trace, Decision{1, false})
 	p.addPC(c)
 	return true
